@@ -8,6 +8,7 @@ import (
 
 	"github.com/open2b/scriggo"
 
+	"verif/harness/gen/gopkgs"
 	"verif/harness/lib/gcref"
 	"verif/harness/lib/sg"
 )
@@ -23,13 +24,23 @@ func main() {
 		panic(err)
 	}
 	src := string(b)
-	ts, err := gcref.Run([]string{src})
+	useHost := strings.Contains(src, "import \"host\"")
+	var ts []gcref.Transcript
+	if useHost {
+		ts, err = gcref.RunModules([]map[string]string{{"go.mod": "module m\n", "main.go": src}})
+	} else {
+		ts, err = gcref.Run([]string{src})
+	}
 	if err != nil {
 		fmt.Println("gc:", err)
 		os.Exit(2)
 	}
 	fmt.Printf("== gc (exit %d, builderr %q, fatal %q)\n%s== gc panic: %q\n", ts[0].Exit, ts[0].BuildErr, ts[0].Fatal, ts[0].Out, ts[0].Panic)
-	p, res := sg.BuildProgram(src, sg.Opts{AllowGo: true})
+	o := sg.Opts{AllowGo: true}
+	if useHost {
+		o.Packages = gopkgs.HostPackage()
+	}
+	p, res := sg.BuildProgram(src, o)
 	if res.BuildErr != nil || res.BuildPanic != nil {
 		fmt.Println("== scriggo build:", res.Describe())
 		return
